@@ -1,5 +1,5 @@
 """
-Helper class for generating URL, query parameters, and header parameters for an endpoint method.
+Helper class for generating URL, query parameters, header and cookie parameters for an endpoint method.
 """
 
 from __future__ import annotations
@@ -63,7 +63,7 @@ class EndpointUrlArgsGenerator:
                 )
 
     def _string_value_expr(self, p_info: dict[str, Any], param_var_name: str) -> str:
-        """Returns the expression for a parameter value that httpx only accepts as str (e.g. a header value).
+        """Returns the expression for a parameter value that httpx only accepts as str (a header or cookie value).
 
         Numbers and booleans are sent in their string form (booleans as true/false, the way httpx writes them
         into a query string); every other type is passed on as serialized.
@@ -107,6 +107,29 @@ class EndpointUrlArgsGenerator:
                 writer.write_line(
                     f'    **({{"{original_header_name}": {value_expr}}} '
                     f"if {param_var_name} is not None else {{}}){line_end}"
+                )
+
+    def _write_cookie_params(
+        self, writer: CodeWriter, op: IROperation, ordered_params: List[dict[str, Any]], context: RenderContext
+    ) -> None:
+        """Writes cookie parameter dictionary construction."""
+        cookie_params_to_write = [p for p in ordered_params if p.get("param_in") == "cookie"]
+
+        # Import DataclassSerializer since we use it for parameter serialization
+        if cookie_params_to_write:
+            context.add_import(f"{context.core_package_name}.utils", "DataclassSerializer")
+
+        for p_info in cookie_params_to_write:
+            param_var_name = NameSanitizer.sanitize_method_name(p_info["name"])
+            original_cookie_name = p_info["original_name"]  # Actual cookie name for the request
+            value_expr = self._string_value_expr(p_info, param_var_name)
+
+            if p_info.get("required", False):
+                writer.write_line(f'    "{original_cookie_name}": {value_expr},')
+            else:
+                # An optional cookie parameter that is None is not sent
+                writer.write_line(
+                    f'    **({{"{original_cookie_name}": {value_expr}}} if {param_var_name} is not None else {{}}),'
                 )
 
     def generate_url_and_args(
@@ -159,6 +182,15 @@ class EndpointUrlArgsGenerator:
             # writer.indent()
             self._write_header_params(writer, op, ordered_params, context)
             # writer.dedent()
+            writer.write_line("}")
+            writer.write_line("")  # Add a blank line
+
+        # Cookie Parameters
+        has_cookie_params = any(p.get("param_in") == "cookie" for p in ordered_params)
+        if has_cookie_params:
+            context.add_import("typing", "Any")  # For dict[str, Any]
+            writer.write_line("cookies: dict[str, Any] = {")
+            self._write_cookie_params(writer, op, ordered_params, context)
             writer.write_line("}")
             writer.write_line("")  # Add a blank line
 
